@@ -103,6 +103,8 @@ impl Drop for UObj {
     fn drop(&mut self) {
         let id = self.id;
         try_with_u(|w| w.on_destroy(id));
+        // a destructor takes time (it may run inside the pool's clear(), under its lock)
+        engine::point("harness.udtor");
     }
 }
 
@@ -1541,6 +1543,9 @@ pub fn gen_unmanaged(rng: &mut Rng, profile: &str, thorough: bool) -> UScenario 
     knobs.p_cancel = *rng.pick(&[0u32, 30, 100, 300]);
     if sibling {
         knobs.sites.push("harness.dtor".to_string());
+    }
+    if !unwinds && rng.below(100) < 25 {
+        knobs.sites.push("harness.udtor".to_string());
     }
     UScenario {
         profile: profile.to_string(),
